@@ -288,6 +288,12 @@ def run(ctx):
     ctx.assumptions += [
         "encoding/json.Unmarshal into PeerInfo is an arbitrary function `decode` (every theorem quantifies over it)",
         "writes of replies succeed (a failing write ends the loop like a fatal error)",
+        "isolation (tcp_isolation) is per TCP connection and for handler calls that do not overlap; the HTTP admin API is the "
+        "unauthenticated operator surface: admin_call_touches_only states which entries each accepted call touches",
+        "HTTP paths with non-ASCII bytes / %-escapes are outside the class the router model is tied on (httprouter folds case with "
+        "strings.EqualFold); pprof answers written after the client has gone are not exercised",
+        "memory is NOT bounded per peer: open known findings unbounded-line-read / unbounded-http-body-read "
+        "(line_buffer_bounded_false); the liveness leg is a stress test (test evidence), not a proof",
     ]
     ctx.rule = ("(liveness leg: readers on every read route + TCP peers + admin calls run concurrently, then every route "
                 "and a fresh IDENTIFY+REGISTER must be answered within a deadline) hostile byte streams, each on a fresh TCP connection next to a well-behaved bystander producer: "
